@@ -126,6 +126,20 @@ Explained(e, X, Y) ==
     \* the last place apart, where the step is below the rounding error, are generated systematically.)
     [] e.op \in {"linspace", "powspace"} -> /\ ~e.panic /\ e.n >= 2 /\ e.len = e.n /\ e.first_eq /\ e.last_units <= 4
                                             /\ e.mono /\ (e.sep => e.strict)
+    \* magnitude sweep: the integer vector b scaled by 2^sk (second operand c scaled by 2^sj), for every sk for which the
+    \* DEFINITION's own intermediates (sum of squares, products) neither overflow nor lose bits to underflow; every result is
+    \* logged as its exact integer multiple of the scale (1073741823 if it is not one) and must be the operator applied to b:
+    \* the norms, reductions and abs are homogeneous, so no magnitude on the exponent axis is special.  zr + i zi: complex
+    \* entries with integer moduli, scaled alike.
+    [] e.op = "sweep" -> /\ ~e.panic /\ Len(e.b) >= 1 /\ Len(e.c) = Len(e.b)
+                         /\ e.n1 = Norm1(e.b) /\ e.ni = NormInf(e.b) /\ e.s = Sum(e.b) /\ SameSeq(e.ab, Abs(e.b))
+                         /\ e.ss = SumSlice(e.b, e.sa, e.sb)
+                         /\ (e.has2 = 1 => e.r2 >= 0 /\ e.r2 <= 46000 /\ e.r2 * e.r2 = SumSq(e.b))
+                         /\ (e.hasd = 1 => e.d = Dot(e.b, e.c)) /\ (e.hasdf = 1 => e.df = Dot(e.b, e.c))
+                         /\ (e.haspp = 1 => e.pp = ProductSlice(e.b, e.pa, e.pb))
+                         /\ (e.hascx = 1 => /\ IsModulusVec(e.cab, e.zr, e.zi) /\ e.cn1 = Sum(e.cab) /\ e.cni = MaxFrom(e.cab, 1)
+                                            /\ e.csr = Sum(e.zr) /\ e.csi = Sum(e.zi)
+                                            /\ (e.hasd = 1 => e.cdr = CDotRe(e.zr, e.zi, e.cw, e.ci) /\ e.cdi = CDotIm(e.zr, e.zi, e.cw, e.ci)))
     [] OTHER -> FALSE
 
 \* the model state after an accepted event
